@@ -136,6 +136,11 @@ var rawBodies = []string{`{`, `{"email":1,"password":true}`, `["a"]`, `null`, `e
 // Next draws the next random-walk action.
 func (p *Profile) Next(s *Sim) *Action {
 	r := s.R
+	if len(s.Pending) > 0 {
+		a := s.Pending[0]
+		s.Pending = s.Pending[1:]
+		return a
+	}
 	if p.Extra != nil && r.Float64() < p.ExtraProb {
 		if a := p.Extra(s); a != nil {
 			return a
@@ -269,6 +274,54 @@ func (p *Profile) Make(s *Sim, kind string) *Action {
 		a.Opt["d"] = g[r.Intn(len(g))].String()
 	case "steal":
 		a.Cls = p.class(r, "steal")
+	case "faultnext":
+		// one backend operation fails in the next request; queue a request in which that matters
+		op := pick(r, "Save", "Save", "Load", "UseRememberToken", "AddRememberToken", "sms", "render", "hash", "Create", "SaveOAuth2", "DelRememberTokens", "LoadByRecoverSelector")
+		a.Opt["op"] = op
+		b := a.B
+		follow := func(k string) *Action { f := p.Make(s, k); f.B = b; return f }
+		switch op {
+		case "UseRememberToken", "AddRememberToken":
+			if s.Enabled("steal") {
+				st := follow("steal")
+				// queue order: steal, then this fault, then the visit — the caller gets the steal first
+				v := &Action{Kind: "visit", B: b, A: -9, Opt: map[string]string{"route": pick(r, "/public", "/protected/bare", "/protected/full")}}
+				s.Pending = append(s.Pending, a, v)
+				return st
+			}
+		case "sms":
+			if s.Enabled("sms_validate") {
+				f := follow("login")
+				f.Cls = "ok"
+				s.Pending = append(s.Pending, f)
+			}
+		case "Create":
+			if s.Enabled("register") {
+				s.Pending = append(s.Pending, follow("register"))
+			}
+		case "SaveOAuth2":
+			if s.Enabled("oauth_cb") {
+				f := follow("oauth_cb")
+				f.Cls, f.Cls2 = "own", "validcode"
+				s.Pending = append(s.Pending, f)
+			}
+		case "LoadByRecoverSelector", "hash", "DelRememberTokens":
+			if s.Enabled("recover_end") {
+				f := follow("recover_end")
+				f.Cls, f.Cls2 = "current", "fresh"
+				s.Pending = append(s.Pending, f)
+			}
+		default:
+			kinds := []string{"login", "login", "otp_login", "totp_validate", "sms_validate", "logout", "otp_add"}
+			k := kinds[r.Intn(len(kinds))]
+			if s.Enabled(k) {
+				f := follow(k)
+				if r.Intn(3) != 0 {
+					f.Cls = "ok"
+				}
+				s.Pending = append(s.Pending, f)
+			}
+		}
 	case "dropsid":
 	case "raw":
 		a.Opt["method"] = pick(r, "POST", "POST", "GET", "DELETE", "PUT")
